@@ -12,6 +12,7 @@ fn controlled() -> Option<u64> {
     unsafe {
         if RF.mode == 0 { return None; }
         let i = RF.n; RF.n += 1;
+        if RF.mode == 3 { return Some(i as u64 + 1); }   // counting draws: 1, 2, 3, ... (pairwise different, concrete)
         if RF.mode == 1 { let v = crate::sym::u64(); if i < MAXDRAWS { RF.draws[i] = v; } Some(v) }
         else { let v = if i < MAXDRAWS { RF.draws[i] } else { 0 }; Some(if i == RF.d { v ^ RF.delta } else { v }) }
     }
